@@ -66,12 +66,18 @@ m.write('C06', 'The playable-card set is exactly the follow-suit rule.', IMP, ''
  (GC, 'g_available_spec', 'C06_available_spec_generated', 'the property, for the regenerated function'),
  (P, 'choice_in_set', 'C06_random_play_in_set', 'random.choice(list(set)) as "some index"'),
 ])
-m.write('C11', 'All replicas of a board agree with the table manager (in-process part).', IMP.replace('Proofs.PlayGenCor.', 'Proofs.PlayGenCor Gen.Skeleton Proofs.SkeletonPin.'), '', [
+m.write('C11', 'All replicas of a board agree with the table manager.', ('From BE Require Import Model.Session Model.Conform Proofs.Kahn Proofs.Session Proofs.Wire Proofs.SessionPassOut Proofs.SessionConform Proofs.SessionAdmission Proofs.SessionArrivals.\n' + IMP.replace('Proofs.PlayGenCor.', 'Proofs.PlayGenCor Gen.Skeleton Proofs.SkeletonPin.')), '''(* (a) in process: the observer simulation theorem.  (b) over the wire: the model client keeps an ObservedPlayingPhase replica per board
+   and stops (Fail) as soon as that replica refuses a card it is told about or it cannot parse what it receives; the
+   theorem C11_clients_complete_every_session says that in every session whose seated clients conform, under every schedule,
+   all four seated clients RETURN - so no replica ever refused an action the table manager accepted and the bundled client
+   completes every session the server completes; that the replicas hold the board as played is evaluated per session on the
+   real clients (replicas_ok of Spec/SessionSpec.v). *)''', [
  (P, 'observer_agrees', 'C11_observer_agrees', 'a single-seat observer fed the accepted plays accepts every one and holds the same public state'),
  (G, 'g_obs_play_by_spec', 'C11_generated_observer_step', 'ObservedPlayingPhase.play_card_by_player regenerated from playing_phase.py on every run'),
  (G, 'g_obs_play_by_eq', 'C11_generated_observer_step_is_hand_model', None),
  (G, 'g_init_obs_eq', 'C11_generated_observer_init', None),
  (G, 'g_set_dummy_hand_eq', 'C11_generated_set_dummy_hand', None),
+ ('Proofs/SessionArrivals.v', 'conforming_session_any_arrivals_every_schedule', 'C11_clients_complete_every_session', 'network part: every seated client returns, under every schedule, for every request list that fills the table'),
  ('Proofs/SkeletonPin.v', 'client_skeleton_pinned', 'C11_client_skeleton_is_the_modelled_one', 'network part: the structure of the bundled client (what it receives, sends and applies to its replica, in which order), re-extracted from client.py on this run, is the one the client processes of Model/Session.v mirror'),
  ('Proofs/SkeletonPin.v', 'server_skeleton_pinned', 'C11_server_skeleton_is_the_modelled_one', None),
  (P, 'ex_observer_hyp', 'C11_example_hypothesis', 'non-vacuity'),
